@@ -49,6 +49,8 @@ pub struct QuakeState {
     /// variables sent under the *other* spelling as well (with a different value): the named
     /// field comes from the primary spelling, the alternate one is just another variable
     pub both_spellings: Vec<(String, String)>,
+    /// QuakeWorld servers send the text with its terminating NUL (strlen + 1 bytes)
+    pub trailing_nul: bool,
 }
 
 const Q_KNOWN: &[&str] = &["hostname", "sv_hostname", "mapname", "map", "maxclients", "sv_maxclients", "version", "*version"];
@@ -115,6 +117,7 @@ impl QuakeState {
             players,
             names_with_spaces,
             both_spellings: Vec::new(),
+            trailing_nul: t.draw(DATA, 3) == 0,
         }
     }
 
@@ -187,6 +190,9 @@ impl QuakeState {
             }
         }
         d.extend_from_slice(s.as_bytes());
+        if self.trailing_nul {
+            d.push(0);
+        }
         d
     }
 
